@@ -17,6 +17,7 @@ import (
 	"go.step.sm/crypto/jose"
 
 	"github.com/smallstep/certificates/authority/admin"
+	"github.com/smallstep/certificates/authority/administrator"
 	"github.com/smallstep/certificates/authority/config"
 	"github.com/smallstep/certificates/authority/policy"
 	"github.com/smallstep/certificates/authority/provisioner"
@@ -324,13 +325,38 @@ func (a *Authority) UpdateProvisioner(ctx context.Context, nu *linkedca.Provisio
 		}
 		return admin.WrapErrorISE(err, "error updating provisioner '%s'", nu.Name)
 	}
-	// The admin collection is indexed by provisioner name; rebuild it if the
-	// provisioner has been renamed.
+	// The admin collection is indexed by provisioner name; index the admins
+	// again if the provisioner has been renamed. This works on what is in
+	// memory, a database that fails now cannot leave the two out of step.
 	if old != nil && old.GetName() != nu.GetName() {
-		if err := a.ReloadAdminResources(ctx); err != nil {
-			return admin.WrapErrorISE(err, "error reloading admin resources after renaming provisioner '%s'", nu.Name)
+		if err := a.reindexAdmins(); err != nil {
+			return admin.WrapErrorISE(err, "error indexing admins after renaming provisioner '%s'", nu.Name)
 		}
 	}
+	return nil
+}
+
+// reindexAdmins rebuilds the admin collection from the admins that it holds,
+// against the current provisioner collection.
+func (a *Authority) reindexAdmins() error {
+	adminClxn := administrator.NewCollection(a.provisioners)
+	for cursor := ""; ; {
+		admins, next := a.admins.Find(cursor, administrator.DefaultAdminMax)
+		for _, adm := range admins {
+			p, ok := a.provisioners.Load(adm.ProvisionerId)
+			if !ok {
+				return admin.NewErrorISE("provisioner %s not found when indexing admin %s", adm.ProvisionerId, adm.Id)
+			}
+			if err := adminClxn.Store(adm, p); err != nil {
+				return err
+			}
+		}
+		if next == "" {
+			break
+		}
+		cursor = next
+	}
+	a.admins = adminClxn
 	return nil
 }
 
